@@ -648,6 +648,8 @@ def layered_records(g, lay, smi):
                "basegraph": {"names": [], "edges": []} if i == 0 else basegraph_of(prev_fine),
                "frags": frags, "fragcoarse": not last, "legacy": True, "allAtom": last,
                "obs": slim_obs(step, "ok" if step is not None else obs["outcome"])}
+        if i == 0:
+            rec["otherfrags"] = [[n, t, j < len(all_frags) - 1] for j, fr in enumerate(all_frags) if j > 0 for n, t in fr]
         if last and step is not None:
             wit = []
             for n in step["fine"]["nodes"]:
@@ -741,7 +743,7 @@ def run_c06(tier):
             flat["flat_of"] = text
             recs.append(flat)
     check.extra["layered_strings"] = nstr
-    verdicts = validate_with(check, recs, extra=("noblocks",))
+    verdicts = validate_with(check, recs, extra=("noblocks", "otherfrags"))
     clauses = ["X_Accepted", "X_CoarseIsInput", "C01_Original"] + CLAUSES["C02"] + CLAUSES["C03"]
     CLAUSES["C06"] = clauses
     judge(check, "C06", recs, verdicts, nontrivial=lambda r, v: r.get("nlevels", 1) >= 2)
